@@ -63,7 +63,7 @@ func runLock(cfg *config) {
 	// statement released its lock counts only if the same statement takes the lock again afterwards
 	// (the statement gave the flusher a gap in its middle); after the last release the flusher is free.
 	var watch, inStmt, ended, gap, inside int32
-	storage.VerifSetHook(func(ev string, arg uint64) {
+	mainHook := func(ev string, arg uint64) {
 		switch {
 		case ev == "txn.begin":
 			if atomic.LoadInt32(&watch) == 1 {
@@ -100,7 +100,8 @@ func runLock(cfg *config) {
 				atomic.AddInt32(&writes, 1)
 			}
 		}
-	})
+	}
+	storage.VerifSetHook(mainHook)
 	park := func(kind, q string) {
 		cfg.tr.Op("park %s %s", kind, hxs(q))
 		atomic.StoreInt32(&writes, 0)
@@ -211,7 +212,7 @@ func runLock(cfg *config) {
 				res = "damaged panic: " + pm
 			}
 		})
-		storage.VerifSetHook(nil)
+		storage.VerifSetHook(mainHook)
 		if len(res) > 120 {
 			res = res[:120]
 		}
@@ -267,7 +268,7 @@ func runLock(cfg *config) {
 			go func() { hx.Catch(func() { sess.Close() }); close(closed) }()
 			r := <-stmtRes
 			<-closed
-			storage.VerifSetHook(nil)
+			storage.VerifSetHook(mainHook)
 			// the next start of the program
 			if err := storage.InitStorage(); err != nil {
 				out = fmt.Sprintf("stmt=%s recovery failed", r)
@@ -285,7 +286,7 @@ func runLock(cfg *config) {
 			}
 			out = fmt.Sprintf("stmt=%s rows=%d", r, len(rows))
 		})
-		storage.VerifSetHook(nil)
+		storage.VerifSetHook(mainHook)
 		cfg.tr.Tilde(out)
 		cfg.st.Inc("close-during-statement")
 	}
@@ -380,7 +381,7 @@ func runLock(cfg *config) {
 				return
 			}
 			<-closed
-			storage.VerifSetHook(nil)
+			storage.VerifSetHook(mainHook)
 			if err := storage.InitStorage(); err != nil {
 				out = fmt.Sprintf("stmt=%s recovery failed", r)
 				return
@@ -396,7 +397,7 @@ func runLock(cfg *config) {
 				out = fmt.Sprintf("stmt=%s table=present", r)
 			}
 		})
-		storage.VerifSetHook(nil)
+		storage.VerifSetHook(mainHook)
 		cfg.tr.Tilde(out)
 		cfg.st.Inc("close-during-create-table")
 	}
